@@ -10,9 +10,41 @@ import (
 	"github.com/jamespfennell/gtfs"
 )
 
-func findRtTrip(r *gtfs.Realtime, tripID string) *gtfs.Trip {
+// zeroTripKey files the all-default trip descriptor (`trip {}`): a legitimate trip whose identifier is
+// the zero TripID. Other id-less identifiers (alert selectors identified by route + direction + start
+// time + start date) have no key of their own and are left to the model comparison.
+const zeroTripKey = "\x00all-default-descriptor"
+
+func tripKey(id gtfs.TripID) string {
+	if id.ID != "" {
+		return id.ID
+	}
+	if id == (gtfs.TripID{}) {
+		return zeroTripKey
+	}
+	return ""
+}
+
+// descKey is tripKey on the wire side.
+func descKey(d map[string]any) string {
+	if d == nil {
+		return ""
+	}
+	if id := gs(d, "tripId"); id != "" {
+		return id
+	}
+	if gs(d, "routeId") == "" && !has(d, "directionId") && !has(d, "startTime") && !has(d, "startDate") && gi(d, "sr") == 0 {
+		return zeroTripKey
+	}
+	return ""
+}
+
+func findRtTrip(r *gtfs.Realtime, key string) *gtfs.Trip {
+	if key == "" {
+		return nil
+	}
 	for i := range r.Trips {
-		if r.Trips[i].ID.ID == tripID {
+		if tripKey(r.Trips[i].ID) == key {
 			return &r.Trips[i]
 		}
 	}
@@ -79,7 +111,7 @@ func oracleC07(in map[string]any, r *gtfs.Realtime, canon map[string]any) ([]Vio
 	// own entity wins
 	for _, e := range ents {
 		if tu := gm(e, "tripUpdate"); tu != nil {
-			t := findRtTrip(r, gs(gm(tu, "trip"), "tripId"))
+			t := findRtTrip(r, descKey(gm(tu, "trip")))
 			if t == nil {
 				viols = append(viols, Viol{"c07-own-missing", "no Trip for the trip update of " + gs(gm(tu, "trip"), "tripId")})
 				continue
@@ -193,7 +225,7 @@ func oracleC04(in map[string]any, r *gtfs.Realtime, canon map[string]any) ([]Vio
 		if vd(t.Vehicle) != vd(v) {
 			viols = append(viols, Viol{"c04-content", fmt.Sprintf("Vehicles[%d]: the vehicle reached through its trip differs in content from the Vehicles entry", j)})
 		}
-		lt := findRtTrip(r, t.ID.ID)
+		lt := findRtTrip(r, tripKey(t.ID))
 		if lt == nil || td(lt) != td(t) {
 			viols = append(viols, Viol{"c04-content", fmt.Sprintf("Vehicles[%d]: the trip it points at differs from the Trips entry", j)})
 		}
@@ -206,15 +238,15 @@ func oracleC04(in map[string]any, r *gtfs.Realtime, canon map[string]any) ([]Vio
 	ents := ga(gm(in, "msg"), "entities")
 	for ei, e := range ents {
 		if tu := gm(e, "tripUpdate"); tu != nil && gm(tu, "vehicle") != nil {
-			assocTrip[gs(gm(tu, "trip"), "tripId")] = "V:" + mustJSON(vehIDOfDesc(gm(tu, "vehicle")))
+			assocTrip[descKey(gm(tu, "trip"))] = "V:" + mustJSON(vehIDOfDesc(gm(tu, "vehicle")))
 			tags["assoc-by-trip-update"] = true
 		}
 		if vp := gm(e, "vehicle"); vp != nil && gm(vp, "trip") != nil {
 			if gm(vp, "vehicle") != nil {
-				assocTrip[gs(gm(vp, "trip"), "tripId")] = "V:" + mustJSON(vehIDOfDesc(gm(vp, "vehicle")))
+				assocTrip[descKey(gm(vp, "trip"))] = "V:" + mustJSON(vehIDOfDesc(gm(vp, "vehicle")))
 				tags["assoc-by-vehicle-position"] = true
 			} else {
-				assocTrip[gs(gm(vp, "trip"), "tripId")] = fmt.Sprintf("noid:%d", ei)
+				assocTrip[descKey(gm(vp, "trip"))] = fmt.Sprintf("noid:%d", ei)
 				tags["assoc-idless-vehicle"] = true
 			}
 		}
@@ -222,7 +254,7 @@ func oracleC04(in map[string]any, r *gtfs.Realtime, canon map[string]any) ([]Vio
 	linkedVeh := map[string]bool{}
 	for i := range r.Trips {
 		t := &r.Trips[i]
-		want, ok := assocTrip[t.ID.ID]
+		want, ok := assocTrip[tripKey(t.ID)]
 		if !ok {
 			if t.Vehicle != nil {
 				viols = append(viols, Viol{"c04-spurious", fmt.Sprintf("trip %q is associated with no vehicle in the feed but has a vehicle reference", t.ID.ID)})
@@ -403,14 +435,14 @@ func oracleC02(in map[string]any, r *gtfs.Realtime, canon map[string]any) ([]Vio
 	for _, e := range ents {
 		if tu := gm(e, "tripUpdate"); tu != nil {
 			d := gm(tu, "trip")
-			wantTrips[gs(d, "tripId")] = d
-			ownTrip[gs(d, "tripId")] = tu
+			wantTrips[descKey(d)] = d
+			ownTrip[descKey(d)] = tu
 			if vd := gm(tu, "vehicle"); vd != nil {
 				wantVeh[vehIDOfDesc(vd)] = true
 			}
 		} else if vp := gm(e, "vehicle"); vp != nil {
 			if d := gm(vp, "trip"); d != nil {
-				wantTrips[gs(d, "tripId")] = d
+				wantTrips[descKey(d)] = d
 			}
 			if vd := gm(vp, "vehicle"); vd != nil {
 				wantVeh[vehIDOfDesc(vd)] = true
@@ -428,20 +460,22 @@ func oracleC02(in map[string]any, r *gtfs.Realtime, canon map[string]any) ([]Vio
 		}
 	}
 	// identifiable alert trips without an id (route+direction+time+date) are counted by the model comparison only
+	delete(wantTrips, "")
+	delete(ownTrip, "")
 	nIDd := 0
 	for i := range r.Trips {
 		t := &r.Trips[i]
-		if t.ID.ID == "" {
+		if tripKey(t.ID) == "" {
 			continue
 		}
 		nIDd++
-		d, ok := wantTrips[t.ID.ID]
+		d, ok := wantTrips[tripKey(t.ID)]
 		if !ok {
 			viols = append(viols, Viol{"c02-invented-trip", fmt.Sprintf("trip %q is not mentioned in the message", t.ID.ID)})
 			continue
 		}
 		viols = append(viols, checkTripID(t.ID, d, loc, "trip "+t.ID.ID)...)
-		tu, own := ownTrip[t.ID.ID]
+		tu, own := ownTrip[tripKey(t.ID)]
 		if t.IsEntityInMessage != own {
 			viols = append(viols, Viol{"c02-inmessage", fmt.Sprintf("trip %q: inMessage=%v, has an entity of its own: %v", t.ID.ID, t.IsEntityInMessage, own)})
 		}
